@@ -108,6 +108,7 @@ func (c *Container) Length() (length int) {
 // Replace replaces all held data with a new data slice. Data will NOT be copied.
 func (c *Container) Replace(data []byte) {
 	c.compartments = [][]byte{data}
+	c.offset = 0
 }
 
 // CompileData concatenates all bytes held by the container and returns it as one single []byte slice. Data will NOT be copied and is NOT consumed.
